@@ -1,3 +1,4 @@
+import re
 """C12 — allowed_versions filters by version and nothing else (DESIGN §4.12)."""
 from .common import *
 
@@ -91,6 +92,58 @@ def reach_under(an, body, vcanon, v):
     return seen
 
 
+def version_word_rule(ctx, prog, an, rid):
+    """The value the dispatcher compares is the whole 16-bit big-endian version word of the packet, reported by its
+    header parser unchanged: a plain 2-byte big-endian number primitive with no Map / narrowing in between (a version
+    read as `u16 as u8` lets 0x0105 through as version 5)."""
+    from .layout import Layouts, term_s
+    parse_bodies = reach_bodies(prog, PARSE_ROOTS)
+    disp = find_dispatchers(prog, parse_bodies)
+    if not ctx.anchor(rid, "dispatcher", disp):
+        return
+    lay = Layouts(prog, an)
+    n = 0
+    for path, (body0, sites0) in sorted(disp.items()):
+        body = role_body(prog, path)
+        gates = [g for g in guards_by_call(an, body, CONTAINS) if g[1][3] and is_allowed_versions(g[1][3][0])]
+        keys = [peel(an.expand(g[1][3][1])) for g in gates]
+        # ... and the scrutinee of the version switch
+        for blk in sorted(body.live_blocks()):
+            t = body.term(blk)
+            if t["k"] == "switch" and len(t["targets"]) >= 3 and set(v for v, _ in t["targets"]) >= {5, 7, 9, 10}:
+                keys.append(peel(an.opx(body, t["op"]), widen=False))
+        for key in keys:
+            cur = key
+            casts = []
+            while cur[0] in ("field", "tfield", "ok", "ref", "deref", "cast"):
+                if cur[0] == "cast":
+                    casts.append((cur[4] if len(cur) > 4 else None, cur[3]))
+                    cur = cur[2]
+                else:
+                    cur = cur[1]
+            n += 1
+            if cur[0] != "call" or cur[2] is None:
+                ctx.ob(rid, path, "version-is-the-16-bit-word", False, "the dispatch value does not originate in a parser call: %s" % canon(key)[:160])
+                continue
+            c = cur[2]
+            narrowed = [x for x in casts if re.match(r"^[ui](8)$", str(x[1]))]
+            if c.is_("nom::number::complete::be_u16", "nom::number::streaming::be_u16"):
+                ok, why = not narrowed, "version read by %s" % c.npath
+            elif c.local:
+                L = lay.parser_layout(c.path if c.path in prog.bodies else c.npath)
+                st = [x for x in (L["steps"] if L["ok"] else []) if "version" in x["fields"]]
+                if not st:
+                    ok, why = False, "header parser %s has no recognisable `version` step (%s)" % (c.path, L.get("why", ""))
+                else:
+                    tm = st[0]["term"]
+                    ok = tm[0] == "prim" and tm[2] == 2 and tm[3] == "be" and not narrowed
+                    why = "version step of %s = %s" % (c.path.rsplit("::", 2)[-2] if "::" in c.path else c.path, term_s(tm)[:120])
+            else:
+                ok, why = False, "version produced by %s" % c.npath
+            ctx.ob(rid, path, "version-is-the-16-bit-word", ok, why + ("" if ok else " - not the plain 2-byte big-endian word (a mapped or narrowed version lets other words alias a supported version)"), site=site(body.span))
+    ctx.floor(rid, "crate", "dispatch values inspected", n, 1)
+
+
 def gate_dominates_rule(ctx, prog, an, rid, versions=(9, 10)):
     """Every call of the given version parsers is reachable only through the true edge of the single
     `allowed_versions.contains(&version)` gate of its dispatcher (shared: C12 R12.1, C06 R6.10)."""
@@ -125,8 +178,10 @@ def run(ctx, env):
     ctx.rule("R12.2", "dispatch table: under version v in {5,7,9,10} exactly the matching parser is reachable; under any other value none is and UnknownVersion(bytes of the input) is built")
     ctx.rule("R12.3", "NetflowParseError::UnallowedVersion is constructed only on the gate's false edge (derived impls excepted); parse_bytes' arm for it adds no element and parses nothing further")
     ctx.rule("R12.4", "no write to / mutable borrow of `allowed_versions` (or whole-parser overwrite) in any body reachable from the public roots")
+    ctx.rule("R12.5", "the dispatch value is the whole 16-bit big-endian version word, read by a plain 2-byte number primitive and not mapped or narrowed on its way to the gate and the version match")
     if not roots_or_fail(ctx, prog, "R12.1", PARSE_ROOTS[:1]):
         return
+    version_word_rule(ctx, prog, an, "R12.5")
     bodies = reach_bodies(prog, ALL_ROOTS)
     parse_bodies = reach_bodies(prog, PARSE_ROOTS)
     ctx.count("reachable_local_bodies", len(bodies))
